@@ -82,6 +82,21 @@ def anchor_modules(E: Engine, pid: str) -> set:
     return {m.name for m in E.P.modules.values() if m.relpath in files}
 
 
+GLOBAL_RETURN_ALLOWED = {
+    "SimConfig.supported_noises": "legacy SimConfig: the table of supported noise types is only read (set difference) by its single internal caller; not part of a claimed property",
+}
+
+
+def _module_table(E: Engine, m, name: str):
+    """The literal assigned to the UPPER_CASE module-level name (followed through one `from x import NAME`)."""
+    for mod in [m] + [E.P.modules[k] for k in E.P.modules if k != m.name]:
+        val = mod.assigns.get(name) if hasattr(mod, "assigns") else None
+        if val is not None and isinstance(val, (ast.List, ast.Dict, ast.Set, ast.ListComp, ast.DictComp, ast.SetComp)):
+            if mod is m or m.imports.get(name, "").rsplit(".", 1)[0] == mod.name:
+                return val
+    return None
+
+
 _IMMUTABLE_HEADS = {"int", "float", "bool", "str", "bytes", "complex", "tuple", "Tuple", "frozenset", "None", "Literal"}
 
 
@@ -228,6 +243,40 @@ def check(E: Engine, rep: Report, pid: str, rule: str = "NET", extra_modules: tu
                     rep.excepted(rule, key + "|returns-element-of-private-container", "confirmed immutable / deliberately shared: " + DIRECT_RETURN_ALLOWED[key], E.where(f, r_))
                 else:
                     rep.violation(rule, key + "|returns-element-of-private-container", f"{f.short} returns `{ast.unparse(v)[:60]}` (an element of the object's own storage, annotated `{ann or '?'}`) itself: callers can now edit the stored container (a dropped copy / conversion such as list(...))", E.where(f, r_))
+    # GLOBAL: a public function that returns a module-level mutable table (or one of its entries) as it is hands the
+    # process-wide table to its caller: one `.append` / item assignment there changes every later user.  The confirmed
+    # exceptions are listed; a copy (`list(T[k])`, `dict(T)`) is what the others do.
+    n_glob = 0
+    for f in E.P.all_functions():
+        if f.kind in ("overload", "setter") or f.module.name not in mods or f.name.startswith("_"):
+            continue
+        ann = ast.unparse(f.node.returns) if f.node.returns is not None else ""
+        for r_ in ast.walk(f.node):
+            if not (isinstance(r_, ast.Return) and r_.value is not None):
+                continue
+            v = r_.value
+            while isinstance(v, ast.Call) and isinstance(v.func, ast.Name) and v.func.id == "cast" and len(v.args) == 2:
+                v = v.args[1]
+            base = v.value if isinstance(v, ast.Subscript) else v
+            if not (isinstance(base, ast.Name) and base.id.isupper()):
+                continue
+            tbl = _module_table(E, f.module, base.id)
+            if tbl is None:
+                continue
+            handed = tbl
+            if isinstance(v, ast.Subscript) and isinstance(tbl, ast.Dict):
+                vals = [x for x in tbl.values if x is not None]
+                handed = vals[0] if vals else None
+            if not isinstance(handed, (ast.List, ast.Dict, ast.Set, ast.ListComp, ast.DictComp, ast.SetComp)):
+                continue
+            n_glob += 1
+            key = f.short + "|returns-module-table-directly"
+            if _immutable_annotation(ann):
+                rep.ok(rule, key, f"annotated `{ann}`", E.where(f, r_))
+            elif f.short in GLOBAL_RETURN_ALLOWED:
+                rep.excepted(rule, key, GLOBAL_RETURN_ALLOWED[f.short], E.where(f, r_))
+            else:
+                rep.violation(rule, key, f"{f.short} returns `{ast.unparse(v)[:60]}`, the module-level table {base.id} (or an entry of it) itself: a caller that edits the result (e.g. appends a state) changes the table for the whole process", E.where(f, r_))
     # CACHED: a public member computed once (`cached_property`, `lru_cache`, `cache`) hands the very same object to every
     # caller; that is fine for immutable values only (on the tree: tuple/bool results; the cached containers are private)
     n_cached = 0
@@ -274,4 +323,4 @@ def check(E: Engine, rep: Report, pid: str, rule: str = "NET", extra_modules: tu
             visit(n.test, False)
     if n_par < 5:
         rep.error(f"UNUSED: only {n_par} parameters inspected for {pid} (anchor modules not found?)")
-    return {"parameters_inspected": n_par, "locals_inspected": n_loc, "post_loop_reads": n_leak, "array_rejections": n_q, "direct_returns": n_dir, "cached_public_members": n_cached}
+    return {"parameters_inspected": n_par, "locals_inspected": n_loc, "post_loop_reads": n_leak, "array_rejections": n_q, "direct_returns": n_dir, "cached_public_members": n_cached, "module_table_returns": n_glob}
